@@ -66,7 +66,7 @@ def block(first, rest_shape, pad, call):
 # the harnesses that also run in the quick tier of C06 (no panic) and C12 (spans inside the text)
 ALSO_QUICK = {"c09_def0_sym1_n2", "c09_def0_nl_n2", "c09_def0_hash_n2", "c09_format_n2", "c09_def0_u2_n2", "c09_literal_n3_s111"}
 # the harnesses that also run in the quick tier of C11 (the column metric the formatter's source_slice relies on)
-C11_QUICK = {"c09_literal_n2", "c09_def0_hash_n2", "c09_def0_d1_n2", "c09_format_n2"}
+C11_QUICK = {"c09_literal_n3_s111", "c09_def0_hash_n2", "c09_def0_d1_n2", "c09_format_n2"}
 
 
 def header(tier, timeout, mem, fns, bound, unwind, name):
